@@ -88,7 +88,17 @@ func main() {
 			env.Filter = pipe.Filters[r.Pick(len(pipe.Filters))]
 			sum.Hist("target-filter:" + env.Filter)
 		}
+		if f.Name == "xml" && r.Chance(0.4) {
+			env.RootNS = true
+			sum.Hist("layout:root-namespace-redeclared-on-records")
+		}
 		must := []string{"fuses", "cast"}
+		if env.RootNS {
+			must = append(must, "rootns")
+		}
+		if f.Name == "edi" {
+			must = append(must, "plain")
+		}
 		if r.Chance(0.3) {
 			must = append(must, "flag-arg")
 		}
@@ -122,6 +132,9 @@ func main() {
 				// reader-level continuable failures among the records (old csv)
 				if len(fkinds) > len(pipe.FailKinds) && r.Chance(0.12) {
 					recs[i] = pipe.MakeFailing(recs[i], pipe.ReaderFailKinds[r.Pick(len(pipe.ReaderFailKinds))])
+				}
+				if f.Name == "edi" && r.Chance(0.12) {
+					recs[i] = pipe.MakeFailing(recs[i], "edi-repeated-element")
 				}
 				recs[i] = f.Place(r, env, recs[i])
 			}
